@@ -222,6 +222,12 @@ def StrSp.Valid (E : Codec) (x : StrSp) : Prop :=
   x.sep ≠ [] ∧ Blank x.sep ∧ x.first.Valid E ∧ (∀ z ∈ x.firstNoise, z.Valid) ∧
     ∀ gn ∈ x.more, gn.1.Valid E ∧ ∀ z ∈ gn.2, z.Valid
 
+/-- no noise line after the last physical line of the string -/
+def StrSp.EndsReal (x : StrSp) : Prop :=
+  match x.more.getLast? with
+  | some gn => gn.2 = []
+  | none => x.firstNoise = []
+
 /-- the string it spells -/
 def StrSp.text (x : StrSp) : Text :=
   PoSpelling.text x.first.choices ++ x.more.flatMap fun gn => PoSpelling.text gn.1.choices
@@ -231,5 +237,60 @@ def contLines (pre : Prefix) (more : List (Seg × List Noise)) : List Text :=
 
 def StrSp.lines (pre : Prefix) (kw : Text) (x : StrSp) : List Text :=
   kwLine pre kw x.sep x.first :: (x.firstNoise.map Noise.render ++ contLines pre x.more)
+
+/-! ## entries and catalogs -/
+
+inductive BodySp where
+  | singular (msgstr : StrSp)
+  | plural (msgidPlural : StrSp) (forms : List StrSp)
+
+/-- the message lines of one entry: `[msgctxt] msgid (msgstr | msgid_plural msgstr[0] …)`, all with the same prefix -/
+structure MsgSp where
+  pre : Prefix
+  msgctxt : Option StrSp
+  msgid : StrSp
+  body : BodySp
+
+def formsLines (pre : Prefix) : Nat → List StrSp → List Text
+  | _, [] => []
+  | j, x :: xs => x.lines pre (mxKw j) ++ formsLines pre (j + 1) xs
+
+def formsDict : Nat → List StrSp → List (Nat × Text)
+  | _, [] => []
+  | j, x :: xs => (j, x.text) :: formsDict (j + 1) xs
+
+def ctxtLines (pre : Prefix) : Option StrSp → List Text
+  | some c => c.lines pre "msgctxt".toList
+  | none => []
+
+def bodyLines (pre : Prefix) : BodySp → List Text
+  | .singular x => x.lines pre "msgstr".toList
+  | .plural p forms => p.lines pre "msgid_plural".toList ++ formsLines pre 0 forms
+
+def MsgSp.lines (m : MsgSp) : List Text :=
+  ctxtLines m.pre m.msgctxt ++ (m.msgid.lines m.pre "msgid".toList ++ bodyLines m.pre m.body)
+
+/-- the last physical line of the message is not a noise line -/
+def MsgSp.EndsReal (m : MsgSp) : Prop :=
+  match m.body with
+  | .singular x => x.EndsReal
+  | .plural _ forms => ∀ x, forms.getLast? = some x → x.EndsReal
+
+def MsgSp.Valid (E : Codec) (m : MsgSp) : Prop :=
+  (m.pre = .plain ∨ ∃ sep, m.pre = .obsolete sep ∧ sep ≠ [] ∧ Blank sep) ∧
+  (∀ c, m.msgctxt = some c → c.Valid E) ∧ m.msgid.Valid E ∧
+  (match m.body with
+    | .singular x => x.Valid E
+    | .plural p forms => p.Valid E ∧ forms ≠ [] ∧ forms.length ≤ 10 ∧ ∀ x ∈ forms, x.Valid E)
+
+/-- the entry the message lines spell, on top of the fields `base` that the comment lines give -/
+def MsgSp.entry (m : MsgSp) (base : I18n.Po.Entry) : I18n.Po.Entry :=
+  { base with
+    msgctxt := m.msgctxt.map StrSp.text
+    msgid := m.msgid.text
+    obsolete := m.pre.isObsolete
+    msgidPlural := match m.body with | .singular _ => none | .plural p _ => some p.text
+    msgstr := match m.body with | .singular x => some x.text | .plural _ _ => none
+    msgstrPlural := match m.body with | .singular _ => [] | .plural _ forms => formsDict 0 forms }
 
 end I18n.Spec.PoSpelling
